@@ -16,12 +16,23 @@
 //        -> R emb (N x d), R has 0|1 (projection.implementation non-null), and when non-null:
 //           R kind matrix|other, R P (D x d), R m (D), R pi (N x d: projection(x_i) for every i),
 //           R pq (nq x d: projection(q_j)).
+//   EMBC method solver N D d k nq T reps <X N*D> <Q nq*D>   (wave 4) public API, then the returned projection function is
+//        applied to the training samples and the query vectors (a) sequentially (reference answers), (b) by T std::threads
+//        at once, each through its OWN COPY of the TapkeeOutput (even threads: copy construction, odd threads: copy
+//        ASSIGNMENT into an existing object), `reps` times in thread-specific orders, (c) by an `omp parallel for` over the
+//        vectors through per-thread copies of the ProjectingFunction; every answer is compared BITWISE with the sequential
+//        one.  -> R has, R calls <n>, R wrong <n> (std::threads), R ompwrong <n>, R seqcheck <n>,
+//        R first <thread> <vector> <column> <got> <want>
 // Numbers are decimal or hex-float on input, hex-float on output.
 #include "spectral_common.hpp"
 
+#include <atomic>
+#include <cstring>
 #include <map>
+#include <mutex>
 #include <numeric>
 #include <omp.h>
+#include <thread>
 #include <tapkee/callbacks/eigen_callbacks.hpp>
 
 using namespace tapkee;
@@ -267,6 +278,133 @@ int main()
                         print_matrix("pi", res.PI);
                         if (nq > 0) print_matrix("pq", res.PQ);
                     }
+                }
+            }
+            else if (cmd == "EMBC")
+            {
+                std::string meth, solver;
+                int N, D, d, kk, nq, T, reps;
+                is >> meth >> solver >> N >> D >> d >> kk >> nq >> T >> reps;
+                DenseMatrix Xr, Qr;
+                if (!is || method_map().count(meth) == 0 || bad_dim(D, 100000) || bad_dim(N, 100000) || bad_dim(nq, 100000) ||
+                    T < 1 || T > 64 || reps < 1 || reps > 100000 || N < 1 || !read_matrix(is, N, D, Xr) ||
+                    !read_matrix(is, nq, D, Qr))
+                    return bad();
+                DenseMatrix X = Xr.transpose();
+                std::vector<IndexType> idx(N);
+                std::iota(idx.begin(), idx.end(), 0);
+                eigen_features_callback fcb(X);
+                eigen_kernel_callback kcb(X);
+                eigen_distance_callback dcb(X);
+                TapkeeOutput out =
+                    tapkee::with((method = method_map().at(meth), target_dimension = d, num_neighbors = kk,
+                                  eigen_method = solver_of(solver), sne_perplexity = 2.0, max_iteration = 20,
+                                  landmark_ratio = 0.5, gaussian_kernel_width = 10.0))
+                        .withKernel(kcb)
+                        .withDistance(dcb)
+                        .withFeatures(fcb)
+                        .embedUsing(idx);
+                const bool has = (bool)out.projection.implementation;
+                std::cout << "R has " << (has ? 1 : 0) << std::endl;
+                if (!has) return;
+                const int nv = N + nq;
+                std::vector<DenseVector> vecs(nv), ref(nv);
+                for (int j = 0; j < nv; j++)
+                {
+                    vecs[j] = (j < N) ? DenseVector(X.col(j)) : DenseVector(Qr.row(j - N).transpose());
+                    ref[j] = out.projection(vecs[j]);
+                }
+                auto differs = [&](const DenseVector& y, const DenseVector& w, int& col) {
+                    col = 0;
+                    if (y.size() != w.size()) return true;
+                    for (int c = 0; c < (int)y.size(); c++)
+                        if (std::memcmp(&y[c], &w[c], sizeof(double)) != 0)
+                        {
+                            col = c;
+                            return true;
+                        }
+                    return false;
+                };
+                std::atomic<long> wrong(0), calls(0), ompwrong(0);
+                std::atomic<int> ready(0);
+                std::atomic<bool> go(false);
+                std::mutex first_lock;
+                bool have_first = false;
+                int f_t = 0, f_q = 0, f_c = 0;
+                double f_got = 0, f_want = 0;
+                auto note_first = [&](int t, int q, int col, const DenseVector& y) {
+                    std::lock_guard<std::mutex> g(first_lock);
+                    if (have_first) return;
+                    have_first = true;
+                    f_t = t;
+                    f_q = q;
+                    f_c = col;
+                    f_got = y.size() > col ? y[col] : 0.0;
+                    f_want = ref[q].size() > col ? ref[q][col] : 0.0;
+                };
+                std::vector<std::thread> workers;
+                for (int t = 0; t < T; t++)
+                {
+                    workers.emplace_back([&, t]() {
+                        TapkeeOutput constructed(out); // private copy of embedding + projection function
+                        TapkeeOutput assigned;
+                        assigned = out;                // ... and one made by copy assignment
+                        TapkeeOutput& mine = (t % 2 == 0) ? constructed : assigned;
+                        ready++;
+                        while (!go.load()) std::this_thread::yield();
+                        for (int r = 0; r < reps; r++)
+                            for (int j = 0; j < nv; j++)
+                            {
+                                const int q = (int)(((long)j * (2 * t + 1) + 7L * t + r) % nv);
+                                DenseVector y = mine.projection(vecs[q]);
+                                calls++;
+                                int col;
+                                if (differs(y, ref[q], col))
+                                {
+                                    wrong++;
+                                    note_first(t, q, col, y);
+                                }
+                            }
+                    });
+                }
+                while (ready.load() < T) std::this_thread::yield();
+                go.store(true);
+                for (auto& w : workers) w.join();
+                // the same batch as an OpenMP parallel for over the vectors (per-thread copies of the function)
+                for (int r = 0; r < reps; r++)
+                {
+#pragma omp parallel num_threads(T)
+                    {
+                        ProjectingFunction mine = out.projection;
+#pragma omp for schedule(static, 1)
+                        for (int j = 0; j < nv; j++)
+                        {
+                            DenseVector y = mine(vecs[j]);
+                            calls++;
+                            int col;
+                            if (differs(y, ref[j], col))
+                            {
+                                ompwrong++;
+                                note_first(100 + omp_get_thread_num(), j, col, y);
+                            }
+                        }
+                    }
+                }
+                long seq_bad = 0;
+                for (int j = 0; j < nv; j++)
+                {
+                    int col;
+                    if (differs(out.projection(vecs[j]), ref[j], col)) seq_bad++;
+                }
+                std::cout << "R calls " << calls.load() << std::endl;
+                std::cout << "R wrong " << wrong.load() << std::endl;
+                std::cout << "R ompwrong " << ompwrong.load() << std::endl;
+                std::cout << "R seqcheck " << seq_bad << std::endl;
+                if (have_first)
+                {
+                    char buf[200];
+                    std::snprintf(buf, sizeof buf, "R first %d %d %d %a %a", f_t, f_q, f_c, f_got, f_want);
+                    std::cout << buf << std::endl;
                 }
             }
             else
